@@ -4,12 +4,14 @@ import DeriveExModel.Props.C19
 C13 / C20 — syntactic hygiene of everything the expander writes.
 
 Every token of every expansion carries its provenance (`Tok.lean`).  Tokens copied from the input (`user`) are the
-user's business.  Path segments (`abs`) are only ever written by `absPath`, directly behind `::`, starting at the crate
-root; member names (`mem`) only behind `.` / `::` / `fn` / `type` or in front of `=` in an associated-type binding;
-`attr` tokens only inside `#[…]`.  What remains — the tokens written literally in the templates (`lit`) — is proved
-here to consist of punctuation, keywords, primitive type names, literals, `__`-reserved names and three names that
-are defined and used inside one generated block (`_eq`, `_f`, and the parameter `T` of `_eq`).  So no identifier the
-expander writes can be captured by, or capture, a name the user chose (names starting with `__` being reserved).
+user's business.  A segment of an absolute path (`abs`) is *fused* with the `::` in front of it, a member name (`mem`)
+with the `.` / `::` / `fn` / `type` in front of it or the `=` of a binding behind it: the data type has no way of writing
+one without its anchor, and `GTok.strs` prints anchor and name next to each other.  What remains — the tokens written
+literally in the templates (`lit`) — is proved here to consist of punctuation, keywords, primitive type names, literals,
+`__`-reserved names and three names that are defined and used inside one generated block (`_eq`, `_f`, and the
+parameter `T` of `_eq`).  So no identifier the expander writes can be captured by, or capture, a name the user chose
+(names starting with `__` being reserved): `attr_output_hygienic`, `derive_output_hygienic` — `tokOK` for every token of
+every segment of every expansion.
 -/
 namespace DX
 
@@ -33,16 +35,35 @@ def litOK (s : String) : Bool :=
       (c == '_' && rest.head? == some '_') || rustKeywords.contains s || primTypes.contains s || blockLocalNames.contains s
     else true                                          -- punctuation, delimiters
 
-/-- every literally written token of the list is allowed -/
-def Hyg (l : GToks) : Prop := ∀ t ∈ l, t.p = .lit → litOK t.s = true
+/-- what a generated token may be, by provenance: a literally written token is punctuation / keyword / primitive type /
+literal / reserved name and has no anchor; a segment of an absolute path is fused with the `::` in front of it; a member
+name is fused with `.`, `::`, `fn` or `type` in front of it or with the `=` of a binding behind it -/
+def tokOK (t : GTok) : Bool :=
+  match t.p with
+  | .lit => litOK t.s && t.pre == "" && t.post == ""
+  | .abs => t.pre == "::" && t.post == ""
+  | .mem => ((t.pre == "." || t.pre == "::" || t.pre == "fn" || t.pre == "type") && t.post == "") || (t.pre == "" && t.post == "=")
+  | _ => t.pre == "" && t.post == ""
+
+/-- every token of the list is allowed -/
+def Hyg (l : GToks) : Prop := ∀ t ∈ l, tokOK t = true
 
 theorem Hyg.nil : Hyg [] := by intro t h; cases h
+@[simp] theorem tokOK_u (s : String) : tokOK (u s) = true := rfl
+@[simp] theorem tokOK_fnM (s : String) : tokOK (fnM s) = true := rfl
+@[simp] theorem tokOK_typeM (s : String) : tokOK (typeM s) = true := rfl
+@[simp] theorem tokOK_dotM (s : String) : tokOK (dotM s) = true := rfl
+@[simp] theorem tokOK_pathM (s : String) : tokOK (pathM s) = true := rfl
+@[simp] theorem tokOK_bindM (s : String) : tokOK (bindM s) = true := rfl
+@[simp] theorem tokOK_idxLit (i : Nat) : tokOK (idxLit i) = true := rfl
+theorem tokOK_lit (s : String) (h : litOK s = true) : tokOK ((s : String) : GTok) = true := by
+  simp [tokOK, h]
 theorem hyg_append {a b : GToks} : Hyg (a ++ b) ↔ Hyg a ∧ Hyg b := by
   unfold Hyg; simp only [List.mem_append]
   constructor
   · intro h; exact ⟨fun t ht => h t (Or.inl ht), fun t ht => h t (Or.inr ht)⟩
   · rintro ⟨h1, h2⟩ t (ht | ht); exact h1 t ht; exact h2 t ht
-theorem hyg_cons {t : GTok} {l : GToks} : Hyg (t :: l) ↔ (t.p = .lit → litOK t.s = true) ∧ Hyg l := by
+theorem hyg_cons {t : GTok} {l : GToks} : Hyg (t :: l) ↔ tokOK t = true ∧ Hyg l := by
   unfold Hyg; simp only [List.mem_cons]
   constructor
   · intro h; exact ⟨h t (Or.inl rfl), fun x hx => h x (Or.inr hx)⟩
@@ -50,22 +71,21 @@ theorem hyg_cons {t : GTok} {l : GToks} : Hyg (t :: l) ↔ (t.p = .lit → litOK
     · subst hx; exact h1
     · exact h2 x hx
 @[simp] theorem hyg_gapp {a b : GToks} : Hyg (a +++ b) ↔ Hyg a ∧ Hyg b := hyg_append
-@[simp] theorem hyg_gcons {t : GTok} {l : GToks} : Hyg (t ::: l) ↔ (t.p = .lit → litOK t.s = true) ∧ Hyg l := hyg_cons
+@[simp] theorem hyg_gcons {t : GTok} {l : GToks} : Hyg (t ::: l) ↔ tokOK t = true ∧ Hyg l := hyg_cons
 theorem hyg_U (ts : Toks) : Hyg (U ts) := by
-  intro t ht hp; simp only [U, List.mem_map] at ht; obtain ⟨s, _, rfl⟩ := ht; cases hp
+  intro t ht; simp only [U, List.mem_map] at ht; obtain ⟨s, _, rfl⟩ := ht; rfl
 theorem hyg_absPath (segs : List String) : Hyg (absPath segs) := by
-  intro t ht hp
-  simp only [absPath, List.mem_flatMap, List.mem_cons, List.not_mem_nil, or_false] at ht
-  obtain ⟨s, _, rfl | rfl⟩ := ht
-  · decide
-  · cases hp
+  intro t ht
+  simp only [absPath, List.mem_map] at ht
+  obtain ⟨s, _, rfl⟩ := ht
+  rfl
 theorem hyg_genAttr (xs : List String) : Hyg (genAttr xs) := by
-  intro t ht hp
+  intro t ht
   simp only [genAttr, List.mem_cons, List.mem_append, List.mem_map, List.not_mem_nil, or_false] at ht
   rcases ht with rfl | rfl | ⟨s, _, rfl⟩ | rfl
   · decide
   · decide
-  · cases hp
+  · rfl
   · decide
 
 theorem hyg_wrap (o c : String) (ho : litOK o = true) (hc : litOK c = true) {l : GToks} :
@@ -73,23 +93,23 @@ theorem hyg_wrap (o c : String) (ho : litOK o = true) (hc : litOK c = true) {l :
   rw [hyg_append, hyg_cons, hyg_cons]
   constructor
   · exact fun h => h.1.2
-  · exact fun h => ⟨⟨fun _ => ho, h⟩, fun _ => hc, Hyg.nil⟩
+  · exact fun h => ⟨⟨tokOK_lit o ho, h⟩, tokOK_lit c hc, Hyg.nil⟩
 theorem hyg_paren {l : GToks} : Hyg (paren l) ↔ Hyg l := hyg_wrap "(" ")" (by decide) (by decide)
 theorem hyg_brace {l : GToks} : Hyg (brace l) ↔ Hyg l := hyg_wrap "{" "}" (by decide) (by decide)
 theorem hyg_angle {l : GToks} : Hyg (angle l) ↔ Hyg l := hyg_wrap "<" ">" (by decide) (by decide)
 theorem hyg_flatMap {α} (l : List α) (f : α → GToks) (h : ∀ x ∈ l, Hyg (f x)) : Hyg (l.flatMap f) := by
-  intro t ht hp
+  intro t ht
   simp only [List.mem_flatMap] at ht
   obtain ⟨x, hx, htx⟩ := ht
-  exact h x hx t htx hp
-theorem hyg_termBy (sep : GTok) (xs : List GToks) (hs : sep.p = .lit → litOK sep.s = true) (h : ∀ x ∈ xs, Hyg x) :
+  exact h x hx t htx
+theorem hyg_termBy (sep : GTok) (xs : List GToks) (hs : tokOK sep = true) (h : ∀ x ∈ xs, Hyg x) :
     Hyg (termBy sep xs) := by
   unfold termBy
   apply hyg_flatMap
   intro x hx
   rw [hyg_append]
   exact ⟨h x hx, by rw [hyg_cons]; exact ⟨hs, Hyg.nil⟩⟩
-theorem hyg_sepBy (sep : GTok) (xs : List GToks) (hs : sep.p = .lit → litOK sep.s = true) (h : ∀ x ∈ xs, Hyg x) :
+theorem hyg_sepBy (sep : GTok) (xs : List GToks) (hs : tokOK sep = true) (h : ∀ x ∈ xs, Hyg x) :
     Hyg (sepBy sep xs) := by
   induction xs with
   | nil => exact Hyg.nil
@@ -110,8 +130,6 @@ namespace DX
 @[simp] theorem hyg_absPath' (segs : List String) : Hyg (absPath segs) ↔ True := iff_true_intro (hyg_absPath segs)
 @[simp] theorem hyg_genAttr' (xs : List String) : Hyg (genAttr xs) ↔ True := iff_true_intro (hyg_genAttr xs)
 @[simp] theorem hyg_nil' : Hyg [] ↔ True := iff_true_intro Hyg.nil
-@[simp] theorem mem_p (s : String) : (mem s).p = .mem := rfl
-@[simp] theorem u_p (s : String) : (u s).p = .user := rfl
 
 theorem hyg_kindPath (k : Kind) : Hyg k.path := by
   cases k <;> simp [Kind.path, CmpOp.path]
@@ -123,7 +141,7 @@ theorem hyg_wcbBuild (w : WCB) (f : Ty → GToks) (hf : ∀ ty, Hyg (f ty)) : Hy
   · simp only [h, if_true]; exact Hyg.nil
   · simp only [h, Bool.false_eq_true, if_false]
     rw [hyg_cons]
-    refine ⟨fun _ => by decide, hyg_termBy _ _ (fun _ => by decide) ?_⟩
+    refine ⟨by decide, hyg_termBy _ _ (by decide) ?_⟩
     intro x hx
     simp only [WCB.items, List.mem_append, List.mem_map] at hx
     rcases hx with ⟨t, _, rfl⟩ | ⟨p, _, rfl⟩
@@ -134,12 +152,13 @@ theorem hyg_withRef {ts : GToks} {r : Bool} : Hyg (withRef ts r) ↔ Hyg ts := b
   unfold withRef
   cases r
   · simp
-  · simp only [if_true]; rw [hyg_cons]; exact ⟨fun h => h.2, fun h => ⟨fun _ => by decide, h⟩⟩
+  · simp only [if_true]; rw [hyg_cons]; exact ⟨fun h => h.2, fun h => ⟨by decide, h⟩⟩
 
 /-- unfold the template, split it into its pieces, decide the literal tokens by evaluation -/
 macro "hyg_simp" "[" ts:Lean.Parser.Tactic.simpLemma,* "]" : tactic =>
   `(tactic| simp (config := { decide := true }) only [implItem, autoDerived, thisTyToks, ufcs, memberOf, hyg_withRef, ↓reduceIte, Bool.false_eq_true, hyg_gapp, hyg_gcons, hyg_cons,
-      hyg_append, hyg_paren, hyg_brace, hyg_angle, hyg_U', hyg_absPath', hyg_genAttr', hyg_nil', mem_p, u_p, and_true, true_and,
+      hyg_append, hyg_paren, hyg_brace, hyg_angle, hyg_U', hyg_absPath', hyg_genAttr', hyg_nil', tokOK_u, tokOK_fnM, tokOK_typeM,
+      tokOK_dotM, tokOK_pathM, tokOK_bindM, tokOK_idxLit, and_true, true_and,
       and_self, false_imp_iff, imp_self, forall_const, hyg_kindPath, $ts,*])
 
 theorem hyg_where_simple (w : WCB) (tr : GToks) (h : Hyg tr) : Hyg (w.build fun ty => U ty.toks +++ ":" ::: tr) :=
@@ -168,8 +187,8 @@ theorem reserved_makeIdent (pre : String) (f : FieldE) (h : Reserved pre) : Rese
   cases f.field.name <;> exact reserved_append _ _ (reserved_append _ _ h)
 
 theorem hyg_makeIdent (pre : String) (f : FieldE) (h : Reserved pre) :
-    ((f.makeIdent pre : String) : GTok).p = .lit → litOK ((f.makeIdent pre : String) : GTok).s = true :=
-  fun _ => litOK_of_reserved _ (reserved_makeIdent pre f h)
+    tokOK ((f.makeIdent pre : String) : GTok) = true :=
+  tokOK_lit _ (litOK_of_reserved _ (reserved_makeIdent pre f h))
 
 theorem res_l : Reserved "__l" := ⟨['l'], rfl⟩
 theorem res_r : Reserved "__r" := ⟨['r'], rfl⟩
@@ -195,7 +214,7 @@ theorem hyg_ctorArgs (fs : Fields) (values : List GToks) (h : ∀ v ∈ values, 
     hyg_simp [hv]
   · simp only
     rw [hyg_paren]
-    exact hyg_termBy ("," : GTok) _ (fun _ => by decide) h
+    exact hyg_termBy ("," : GTok) _ (by decide) h
   · exact Hyg.nil
 
 theorem hyg_binders (pre : String) (hp : Reserved pre) (fields : List FieldE) :
@@ -223,7 +242,7 @@ theorem hyg_matchSelf (arms : List GToks) (h : ∀ a ∈ arms, Hyg a) : Hyg (mat
   unfold matchSelf
   split
   · hyg_simp []
-  · hyg_simp [hyg_termBy ("," : GTok) _ (fun _ => by decide) h]
+  · hyg_simp [hyg_termBy ("," : GTok) _ (by decide) h]
 
 
 /-! ### the templates -/
@@ -256,8 +275,9 @@ theorem hyg_debugExpr (x : DebugExpr) (toExpr : FieldE → GToks) (h : ∀ f, Hy
   cases x with
   | transparent f => hyg_simp [DebugExpr.render, h]
   | builder named ident fields =>
-    have hn : ∀ t : String, litOK (nameLit t) = true := by
+    have hn : ∀ t : String, tokOK ((nameLit t : String) : GTok) = true := by
       intro t
+      apply tokOK_lit
       unfold litOK nameLit
       rw [String.toList_append, String.toList_append]
       rfl
@@ -305,7 +325,7 @@ theorem hyg_clone (c : CloneImpl) : Hyg c.render := by
       apply hyg_mapMem
       intro f
       hyg_simp []
-    · apply hyg_termBy (";" : GTok) _ (fun _ => by decide)
+    · apply hyg_termBy (";" : GTok) _ (by decide)
       apply hyg_mapMem
       intro f
       hyg_simp []
@@ -320,11 +340,11 @@ theorem hyg_clone (c : CloneImpl) : Hyg c.render := by
       apply hyg_mapMem
       intro f
       hyg_simp [hyg_makeIdent "__l" f res_l]
-    · apply hyg_termBy ("," : GTok) _ (fun _ => by decide)
+    · apply hyg_termBy ("," : GTok) _ (by decide)
       apply hyg_mapMem
       intro v
       hyg_simp [hyg_ctorArgs _ _ (hyg_binders "__l" res_l v.fields), hyg_ctorArgs _ _ (hyg_binders "__r" res_r v.fields)]
-      apply hyg_termBy (";" : GTok) _ (fun _ => by decide)
+      apply hyg_termBy (";" : GTok) _ (by decide)
       apply hyg_mapMem
       intro f
       hyg_simp [hyg_makeIdent "__l" f res_l, hyg_makeIdent "__r" f res_r]
@@ -357,7 +377,7 @@ theorem hyg_opsForm (o : OpsImpl) (l r : Bool) (w : WCB) : Hyg (o.renderForm l r
       · apply hyg_wcbBuild
         intro ty
         hyg_simp [hk]
-      · apply hyg_termBy (";" : GTok) _ (fun _ => by decide)
+      · apply hyg_termBy (";" : GTok) _ (by decide)
         apply hyg_mapMem
         intro f
         hyg_simp [hk, hyg_refFieldTy]
@@ -411,8 +431,8 @@ theorem hyg_helperFnBlock (id : String) (hid : Reserved id) (generics : GToks) (
     (args : List GToks) (hg : Hyg generics) (hp : ∀ p ∈ params, Hyg p) (hr : Hyg ret) (hb : Hyg body)
     (ha : ∀ a ∈ args, Hyg a) : Hyg (helperFnBlock id generics params ret body args) := by
   unfold helperFnBlock
-  have hidok : litOK id = true := litOK_of_reserved id hid
-  hyg_simp [hg, hr, hb, hidok, hyg_sepBy ("," : GTok) _ (fun _ => by decide) hp, hyg_sepBy ("," : GTok) _ (fun _ => by decide) ha]
+  have hidok : tokOK ((id : String) : GTok) = true := tokOK_lit _ (litOK_of_reserved id hid)
+  hyg_simp [hg, hr, hb, hidok, hyg_sepBy ("," : GTok) _ (by decide) hp, hyg_sepBy ("," : GTok) _ (by decide) ha]
 
 theorem hyg_ufcs2 (path : List String) (a b : GToks) (ha : Hyg a) (hb : Hyg b) : Hyg (ufcs2 path a b) := by
   hyg_simp [ufcs2, ha, hb]
@@ -521,7 +541,7 @@ theorem hyg_toIndexFn (vs : List VariantE) : Hyg (toIndexFn vs) := by
   hyg_simp []
   apply hyg_flatMap
   rintro ⟨v, i⟩ _
-  hyg_simp [hyg_makePatWildcard, idxLit]
+  hyg_simp [hyg_makePatWildcard]
 
 
 theorem hyg_poStep (e : GToks) (h : Hyg e) : Hyg (poStep e) := by hyg_simp [poStep, h, hyg_someEqual]
@@ -539,7 +559,7 @@ theorem hyg_cmpFieldsBody (op : CmpOp) (k : SrcKind) (fs : List CmpField) : Hyg 
   · simp only
     split
     · hyg_simp []
-    · apply hyg_sepBy ("&&" : GTok) _ (fun _ => by decide)
+    · apply hyg_sepBy ("&&" : GTok) _ (by decide)
       apply hyg_mapMem
       intro cf
       rw [hyg_paren]
@@ -630,10 +650,10 @@ theorem hyg_genImpl (g : GenImpl) : ∀ ts ∈ g.render, Hyg ts := by
   | deref d => intro ts h; simp only [GenImpl.render, List.mem_cons, List.not_mem_nil, or_false] at h; subst h; exact hyg_deref d
 
 theorem hyg_flatten (l : List GToks) (h : ∀ ts ∈ l, Hyg ts) : Hyg l.flatten := by
-  intro t ht hp
+  intro t ht
   simp only [List.mem_flatten] at ht
   obtain ⟨ts, hts, htt⟩ := ht
-  exact h ts hts t htt hp
+  exact h ts hts t htt
 
 theorem fst_mem_of_mem_zipIdx {α} (l : List α) (k : Nat) (p : α × Nat) (h : p ∈ l.zipIdx k) : p.1 ∈ l := by
   induction l generalizing k with
@@ -694,9 +714,10 @@ theorem hyg_implSegs (attr : Args) (i : ItemImpl) : ∀ seg ∈ implSegs attr i,
       exact hyg_fwd f ts (fst_mem_of_mem_zipIdx _ _ _ hmem)
 
 /-- **Hygiene of the attribute macro.**  For every item and every argument list, every token of every emitted segment
-that the expander wrote literally (neither copied from the input, nor a segment of an absolute `::core::…` path, nor a
-member name behind `.` / `::` / `fn` / `type`, nor inside a generated attribute, nor a computed integer literal) is
-punctuation, a keyword, a primitive type, a literal, a `__`-reserved name or one of the three block-local names. -/
+satisfies `tokOK`: one that the expander wrote literally is punctuation, a keyword, a primitive type, a literal, a
+`__`-reserved name or one of the three block-local names; a segment of an absolute path directly follows `::`; a member
+name directly follows `.` / `::` / `fn` / `type` or directly precedes the `=` of a binding; the rest is copied from the
+input, sits inside a generated attribute, or is a computed integer literal. -/
 theorem attr_output_hygienic (attr : Args) (item : Item) : ∀ seg ∈ expandAttr attr item, Hyg seg.tokens := by
   intro seg hseg
   unfold expandAttr at hseg
@@ -734,13 +755,18 @@ theorem derive_output_hygienic (item : Item) : ∀ seg ∈ expandDerive item, Hy
 
 /-! ### the anchored provenances are produced behind their anchor -/
 
-/-- every `abs` token written by `absPath` directly follows a `::` -/
-theorem absPath_anchored (segs : List String) :
-    absPath segs = segs.flatMap (fun s => [({ s := "::" } : GTok), { s := s, p := .abs }]) := rfl
+/-- what `absPath` prints: `::` in front of every segment -/
+theorem absPath_strs (segs : List String) : (absPath segs).strs = segs.flatMap (fun s => ["::", s]) := by
+  induction segs with
+  | nil => rfl
+  | cons x xs ih =>
+    simp only [absPath, GToks.strs, List.map_cons, List.flatMap_cons] at ih ⊢
+    rw [ih]
+    rfl
 
 /-- the first segment of every absolute path the templates write is `core` (so the path starts at the crate root
 `::core`, which no user-chosen name can shadow) — checked on the trait table and on the fixed paths -/
-theorem kind_paths_rooted (k : Kind) : ∃ rest, k.path = ({ s := "::" } : GTok) :: { s := "core", p := .abs } :: rest := by
+theorem kind_paths_rooted (k : Kind) : ∃ rest, k.path = ({ s := "core", p := .abs, pre := "::" } : GTok) :: rest := by
   cases k <;> first
     | exact ⟨_, rfl⟩
     | (rename_i o; cases o <;> exact ⟨_, rfl⟩)
